@@ -25,10 +25,13 @@ Inductive rowv (A : Type) := RSep | RCells (cs : list (cell A)).
 Arguments RSep {A}.
 Arguments RCells {A}.
 
-(* a *Row that is in t.rows: rowNum and the body *)
-Record trow (A : Type) := mkTRow { r_num : nat; r_body : rowv A }.
+(* a *Row that is in t.rows: rowNum, whether row.inTable is this table (a
+   *Row can be handed to another table's AddRow, which re-points it), and
+   the body *)
+Record trow (A : Type) := mkTRow { r_num : nat; r_here : bool; r_body : rowv A }.
 Arguments mkTRow {A}.
 Arguments r_num {A}.
+Arguments r_here {A}.
 Arguments r_body {A}.
 
 (* what a program-held *Row refers to *)
@@ -78,12 +81,12 @@ Definition body_size (b : rowv A) : nat := match b with RSep => 0 | RCells cs =>
 
 (* AddRow on a row value: append, rowNum := len(t.rows), resizeColumnsAtLeast(len(row.cells)) *)
 Definition add_row_cells (st : state) (cs : list cell) : state :=
-  let rows := t_rows st ++ [mkTRow (S (length (t_rows st))) (RCells cs)] in
+  let rows := t_rows st ++ [mkTRow (S (length (t_rows st))) true (RCells cs)] in
   resize_columns_at_least (with_rows st rows) (length cs).
 
 (* AddSeparator: append, rowNum := len(t.rows); no resize *)
 Definition add_separator (st : state) : state :=
-  with_rows st (t_rows st ++ [mkTRow (S (length (t_rows st))) RSep]).
+  with_rows st (t_rows st ++ [mkTRow (S (length (t_rows st))) true RSep]).
 
 (* Row.Add on the row at index i of t.rows (r.inTable != nil) *)
 Definition row_add_attached (st : state) (i : nat) (x : A) : state :=
@@ -93,7 +96,9 @@ Definition row_add_attached (st : state) (i : nat) (x : A) : state :=
       | RSep => st                                  (* cells == nil: misuse, an error is recorded, no cell *)
       | RCells cs =>
           let cs' := row_add_cell cs x in
-          resize_columns_at_least (with_rows st (upd (t_rows st) i (mkTRow (r_num tr) (RCells cs')))) (length cs')
+          let st' := with_rows st (upd (t_rows st) i (mkTRow (r_num tr) (r_here tr) (RCells cs'))) in
+          if r_here tr then resize_columns_at_least st' (length cs')
+          else st'                                  (* r.inTable is another table: that one is resized *)
       end
   | None => st
   end.
@@ -117,6 +122,27 @@ Definition add_row (st : state) (r : nat) : state :=
   | _ => st
   end.
 
+(* other.AddRow(row) for a row held in this table's row list: the one *Row now
+   says inTable = other, rowNum = its position there.  (This table keeps it in
+   its list; what it shows from then on is what the code does, and is outside
+   wf_hist, DESIGN section 13.1.)  A row that is not in this table: nothing of
+   this table changes. *)
+Definition taken_by_other (st : state) (i k : nat) : state :=
+  match nth_error (t_rows st) i with
+  | Some tr => with_rows st (upd (t_rows st) i (mkTRow k false (r_body tr)))
+  | None => st
+  end.
+
+Definition other_add_row (st : state) (ref : rref) (k : nat) : state :=
+  match ref with
+  | RIdx i => taken_by_other st i k
+  | RName r =>
+      match assoc r (t_handles st) with
+      | Some (Attached i) => taken_by_other st i k
+      | _ => st
+      end
+  end.
+
 Definition append_new_row (st : state) (r : nat) : state :=
   bind_handle (add_row_cells st []) r (Attached (length (t_rows st))).
 
@@ -137,6 +163,7 @@ Definition step (st : state) (o : op A) : state :=
   | AddSeparator => add_separator st
   | AddHeaders xs => add_headers st xs
   | MutateAllRowsCopy => st          (* the caller's slice is a copy: nothing of the table is reachable from it *)
+  | OtherAddRow ref k => other_add_row st ref k
   end.
 
 Definition run (h : list (op A)) : state := fold_left step h init.
